@@ -170,3 +170,81 @@ MODE_PAGES = {
         "first_import_element_address": N(10, 2), "num_import_elements": N(12, 2),
         "first_data_transfer_element_address": N(14, 2), "num_data_transfer_elements": N(16, 2)}), const={N(1, 1): 0x12}),
 }
+
+# ------------------------------------------------------------------------------------------------ VPD lists
+DESIGNATION_HEADER = Fmt("designation descriptor header", 4, {
+    "protocol_identifier": B(0, 7, 4), "code_set": B(0, 3, 0), "piv": B(1, 7), "association": B(1, 5, 4),
+    "designator_type": B(1, 3, 0), "designator_length": N(3, 1),
+})
+# designators by DESIGNATOR TYPE: list of (case name, total length, Fmt over the designator bytes)
+NAA = {
+    2: Fmt("NAA IEEE Extended", 8, {"naa": B(0, 7, 4), "vendor_specific_identifier_a": F(0, 2, 11, 0), "ieee_company_id": N(2, 3),
+                                    "vendor_specific_identifier_b": N(5, 3)}),
+    3: Fmt("NAA Locally Assigned", 8, {"naa": B(0, 7, 4), "locally_administered_value": F(0, 8, 59, 0)}),
+    5: Fmt("NAA IEEE Registered", 8, {"naa": B(0, 7, 4), "ieee_company_id": F(0, 4, 27, 4), "vendor_specific_identifier": F(3, 5, 35, 0)}),
+    6: Fmt("NAA IEEE Registered Extended", 16, {"naa": B(0, 7, 4), "ieee_company_id": F(0, 4, 27, 4), "vendor_specific_identifier": F(3, 5, 35, 0),
+                                                "vendor_specific_identifier_extension": N(8, 8)}),
+}
+DESIGNATORS = {
+    "vendor-specific": (0, lambda n: Fmt("vendor specific designator", n, {"vendor_specific": Blob(0, n)}), (0, 5)),
+    "t10-vendor-id": (1, lambda n: Fmt("T10 vendor ID designator", n, {"t10_vendor_id": Blob(0, 8), "vendor_specific_id": Blob(8, n - 8)}), (8, 12)),
+    "eui64-8": (2, lambda n: Fmt("EUI-64 (8 bytes)", 8, {"ieee_company_id": N(0, 3), "vendor_specific_extension_id": Blob(3, 5)}), (8,)),
+    "eui64-12": (2, lambda n: Fmt("EUI-64 (12 bytes)", 12, {"ieee_company_id": N(0, 3), "vendor_specific_extension_id": Blob(3, 5), "directory_id": Blob(8, 4)}), (12,)),
+    "eui64-16": (2, lambda n: Fmt("EUI-64 (16 bytes)", 16, {"identifier_extension": Blob(0, 8), "ieee_company_id": N(8, 3), "vendor_specific_extension_id": Blob(11, 5)}), (16,)),
+    "naa-2": (3, lambda n: NAA[2], (8,)), "naa-3": (3, lambda n: NAA[3], (8,)), "naa-5": (3, lambda n: NAA[5], (8,)), "naa-6": (3, lambda n: NAA[6], (16,)),
+    "relative-target-port": (4, lambda n: Fmt("relative target port designator", 4, {"relative_port": N(2, 2)}), (4,)),
+    "target-port-group": (5, lambda n: Fmt("target port group designator", 4, {"target_portal_group": N(2, 2)}), (4,)),
+    "logical-unit-group": (6, lambda n: Fmt("logical unit group designator", 4, {"logical_unit_group": N(2, 2)}), (4,)),
+    "md5": (7, lambda n: Fmt("MD5 logical unit designator", 16, {"md5_logical_identifier": Blob(0, 16)}), (16,)),
+    "scsi-name-string": (8, lambda n: Fmt("SCSI name string designator", n, {"scsi_name_string": Blob(0, n)}), (4, 12)),
+}
+NAA_FIXED = {"naa-2": 2, "naa-3": 3, "naa-5": 5, "naa-6": 6}
+
+# ATA Information VPD page (SAT-3 12.4.2): 572 bytes
+ATA_INFORMATION = Fmt("ATA Information VPD page", 572, dict(_VPD_HDR, **{
+    "sat_vendor_identification": Blob(8, 8), "sat_product_identification": Blob(16, 16), "sat_product_rev_lvl": Blob(32, 4),
+    "signature.raw": Blob(36, 20), "command_code": N(56, 1),
+    # IDENTIFY (PACKET) DEVICE data starts at byte 60; word w occupies bytes 60+2w, 61+2w
+    "identify.serial_number": Blob(60 + 2 * 10, 20), "identify.firmware_rev": Blob(60 + 2 * 23, 8), "identify.model_number": Blob(60 + 2 * 27, 40),
+}), const={N(2, 2): 0x238})
+ATA_INFORMATION.page_code = 0x89
+
+# ------------------------------------------------------------------------------------------------ TransportIDs (SPC-4 7.6.4)
+TRANSPORT_ID_HEAD = {"tpid_format": B(0, 7, 6), "protocol_id": B(0, 3, 0)}
+TRANSPORT_IDS = {
+    "fc": Fmt("FCP TransportID", 24, dict(TRANSPORT_ID_HEAD, n_port_name=Blob(8, 8))),
+    "1394": Fmt("SBP TransportID", 24, dict(TRANSPORT_ID_HEAD, eui64_name=Blob(8, 8))),
+    "rdma": Fmt("SRP TransportID", 24, dict(TRANSPORT_ID_HEAD, initiator_port_identifier=Blob(8, 16))),
+    "sas": Fmt("SAS TransportID", 24, dict(TRANSPORT_ID_HEAD, sas_address=Blob(4, 8))),
+}
+TRANSPORT_PROTOCOL = {"fc": 0x0, "1394": 0x3, "rdma": 0x4, "iscsi": 0x5, "sas": 0x6}
+
+
+def iscsi_transport_id(name, isid=None):
+    """iSCSI TransportID: byte 0 format/protocol, bytes 2-3 ADDITIONAL LENGTH (m-3), then the name: format 00b the
+    iSCSI name, format 01b name + ",i,0x" + ISID; NUL-terminated and NUL-padded to a multiple of four"""
+    s = name if isid is None else "%s,i,0x%s" % (name, isid)
+    raw = list(s.encode("utf-8")) + [0]
+    while len(raw) % 4:
+        raw.append(0)
+    cells = [((0 if isid is None else 1) << 6) | 0x5, 0, 0, 0] + raw
+    put_be(cells, 2, 2, len(cells) - 4)
+    return cells
+
+
+# ------------------------------------------------------------------------------------------------ READ CD (MMC-6 6.19)
+# sector layouts by EXPECTED SECTOR TYPE; sizes in bytes
+CD_SECTOR = {
+    1: dict(name="CD-DA", user=2352, sync=False, header=False, subheader=False, edc=0, ecc=False),
+    2: dict(name="Mode 1", user=2048, sync=True, header=True, subheader=False, edc=4, ecc=True, zero=8),
+    3: dict(name="Mode 2 formless", user=2336, sync=True, header=True, subheader=False, edc=0, ecc=False),
+    4: dict(name="Mode 2 Form 1", user=2048, sync=True, header=True, subheader=True, edc=4, ecc=True, zero=0),
+    5: dict(name="Mode 2 Form 2", user=2324, sync=True, header=True, subheader=True, edc=4, ecc=False),
+}
+CD_SECTOR_HEADER = Fmt("CD sector header", 4, {"minute": N(0, 1), "second": N(1, 1), "frame": N(2, 1), "mode": N(3, 1)})
+C2_SIZES = {0: 0, 1: 294, 2: 296}
+SUBCHANNEL_SIZES = {0: 0, 1: 96, 2: 16, 4: 96}
+SUBCHANNEL_Q = Fmt("formatted Q sub-channel", 16, {
+    "c": B(0, 7, 4), "adr": B(0, 3, 0), "track-number": N(1, 1), "index-number": N(2, 1), "min": N(3, 1), "sec": N(4, 1), "frame": N(5, 1),
+    "zero": N(6, 1), "amin": N(7, 1), "asec": N(8, 1), "aframe": N(9, 1), "crc": N(10, 2), "p": B(15, 7),
+})
